@@ -417,3 +417,144 @@ func TestC13Concurrent(t *testing.T) {
 		St.ClassN("enumerations_during_concurrent_updates", nenum)
 	})
 }
+
+// A directory that reaches into the double-indirect range of its inode (more than 520 blocks = 16 640 slots):
+// built with plain calls, kept in a map of name -> (file id, handle); enumerated with READDIR and READDIRPLUS,
+// mutated in the far range (slots freed and taken again, the directory grown by another block), restarted.
+func TestC13Huge(t *testing.T) {
+	rapid.Check(t, func(t *rapid.T) {
+		d := NewDisk(9000)
+		d.SetRecord(false)
+		s := StartSrv(d, rapid.Bool().Draw(t, "unstable"), false)
+		defer func() { s.Stop() }()
+		var hist []string
+		fail := func(format string, a ...any) {
+			failf(t, "C13", map[string]any{"history": hist}, format, a...)
+		}
+		api := s.API()
+		mk := api.NFSPROC3_MKDIR(nt.MKDIR3args{Where: nt.Diropargs3{Dir: s.RootFH(), Name: "huge"}})
+		if mk.Status != nt.NFS3_OK {
+			fail("MKDIR: status %d", mk.Status)
+		}
+		dir := mk.Resok.Obj.Handle
+		type ent struct {
+			id uint64
+			fh []byte
+		}
+		have := map[string]ent{}
+		n0 := 16640 + rapid.IntRange(-40, 200).Draw(t, "entries") // '.' and '..' take two slots
+		create := func(name string) {
+			r := api.NFSPROC3_CREATE(nt.CREATE3args{Where: nt.Diropargs3{Dir: dir, Name: nt.Filename3(name)}})
+			if r.Status != nt.NFS3_OK {
+				fail("CREATE %s in a directory of %d entries: status %d", name, len(have), r.Status)
+			}
+			have[name] = ent{uint64(r.Resok.Obj_attributes.Attributes.Fileid), r.Resok.Obj.Handle.Data}
+		}
+		remove := func(name string) {
+			if r := api.NFSPROC3_REMOVE(nt.REMOVE3args{Object: nt.Diropargs3{Dir: dir, Name: nt.Filename3(name)}}); r.Status != nt.NFS3_OK {
+				fail("REMOVE %s: status %d", name, r.Status)
+			}
+			delete(have, name)
+		}
+		for i := 0; i < n0; i++ {
+			create(fmt.Sprintf("e%05d", i))
+		}
+		hist = append(hist, fmt.Sprintf("MKDIR /huge; CREATE e00000 .. e%05d", n0-1))
+		enumerate := func(what string) {
+			for _, plus := range []bool{false, true} {
+				req := pageReq{Plus: plus, Count: pick(t, []uint32{4096, 65536, 1 << 20}, "count"), Dircount: 65536}
+				start := uint64(0)
+				seen := map[string]int{}
+				if plus {
+					// the attributes of 16 000 entries are not the point: start near the end of the single-indirect range
+					// READDIR up to about slot 16 000, READDIRPLUS from there
+					skip := pageReq{Count: 65536}
+					for len(seen) < 16000 {
+						ents, eof, st := onePage(api, dir, skip)
+						if st != nt.NFS3_OK || (len(ents) == 0 && !eof) {
+							fail("%s: READDIR from cookie %d: status %d, no progress", what, skip.Cookie, st)
+						}
+						if eof {
+							break // the rest (this page included) goes through READDIRPLUS
+						}
+						for _, e := range ents {
+							seen[e.Name]++
+						}
+						skip.Cookie = ents[len(ents)-1].Cookie
+						start = skip.Cookie
+					}
+				}
+				req.Cookie = start
+				for pages := 0; ; pages++ {
+					if pages > 40000 {
+						fail("%s: the enumeration does not end", what)
+					}
+					ents, eof, st := onePage(api, dir, req)
+					if st != nt.NFS3_OK || (len(ents) == 0 && !eof) {
+						fail("%s: READDIR%s from cookie %d: status %d, %d entries, eof %v", what, map[bool]string{true: "PLUS"}[plus], req.Cookie, st, len(ents), eof)
+					}
+					for _, e := range ents {
+						seen[e.Name]++
+						if e.Name == "." || e.Name == ".." {
+							continue
+						}
+						w, ok := have[e.Name]
+						if !ok {
+							fail("%s: the listing returned %q, which is not in the directory", what, e.Name)
+						}
+						if e.Fileid != w.id {
+							fail("%s: entry %q carries file id %d, the object's is %d", what, e.Name, e.Fileid, w.id)
+						}
+						if plus && (e.FH == nil || !bytes.Equal(e.FH, w.fh) || e.Attr == nil || uint64(e.Attr.Fileid) != w.id) {
+							fail("%s: READDIRPLUS entry %q carries handle %x (object: %x) or wrong attributes", what, e.Name, e.FH, w.fh)
+						}
+					}
+					if eof {
+						break
+					}
+					req.Cookie = ents[len(ents)-1].Cookie
+				}
+				for name := range have {
+					if seen[name] != 1 {
+						fail("%s: entry %q of a directory of %d entries was returned %d times by READDIR%s (count %d)", what, name, len(have), seen[name], map[bool]string{true: "PLUS"}[plus], req.Count)
+					}
+				}
+				if seen["."] != 1 || seen[".."] != 1 {
+					fail("%s: '.' returned %d times, '..' %d times", what, seen["."], seen[".."])
+				}
+				St.Eval(1)
+				St.NT(Hash("huge", n0, what, plus))
+				St.Class("enumerations_of_a_directory_reaching_the_double_indirect_range")
+			}
+		}
+		enumerate("after building")
+		// free slots far out and near the start, take them again, grow the directory by another block
+		for _, i := range []int{n0 - 1, n0 - 2, n0 - 33, 16637, 16638, 16639, 16640, 5, 8000} {
+			if name := fmt.Sprintf("e%05d", i); i >= 0 && i < n0 {
+				if _, ok := have[name]; ok {
+					remove(name)
+				}
+			}
+		}
+		nadd := rapid.IntRange(1, 70).Draw(t, "adds")
+		for i := 0; i < nadd; i++ {
+			create(fmt.Sprintf("x%05d", i))
+		}
+		hist = append(hist, "REMOVE nine entries (far range, range boundary, start)", fmt.Sprintf("CREATE x00000 .. x%05d", nadd-1))
+		if rapid.Bool().Draw(t, "restart") {
+			s.Restart()
+			api = s.API()
+			hist = append(hist, "RESTART")
+		}
+		enumerate("after removals, additions" + map[bool]string{true: " and a restart"}[len(hist) > 3])
+		for name, w := range have {
+			if Hash(name)%97 != 0 {
+				continue
+			}
+			lr := api.NFSPROC3_LOOKUP(nt.LOOKUP3args{What: nt.Diropargs3{Dir: dir, Name: nt.Filename3(name)}})
+			if lr.Status != nt.NFS3_OK || !bytes.Equal(lr.Resok.Object.Data, w.fh) {
+				fail("LOOKUP %s: status %d handle %x, created as %x", name, lr.Status, lr.Resok.Object.Data, w.fh)
+			}
+		}
+	})
+}
